@@ -166,10 +166,11 @@ def readChecks (s : St) (tag : Tag) (loc : Nat) (hw : Bool) (a : Area) (off n : 
 def readRefusal (s : St) (tag : Tag) (loc : Nat) (hw : Bool) (a : Area) (off n : Nat) : Nat :=
   firstRefusal (readChecks s tag loc hw a off n)
 
-/-- the DIR pseudo index: no permission checks at all (the DIR has no bReadSTClear either) -/
+/-- the DIR pseudo index: no permission checks at all (the DIR has no bReadSTClear either); the range offset + dataSize
+    is checked against the 20 bytes also when dataSize is 0 (the code has no size-0 case for the DIR) -/
 def readRefusalDir (s : St) (tag : Tag) (off n : Nat) : Nat :=
   firstRefusal [ (tag.authBad && s.mem.nvLocked, TPM_AUTHFAIL),
-                 (n != 0 && (decide (off + n ≥ M32) || decide (off + n > TPM_DIGEST_SIZE)), TPM_NOSPACE) ]
+                 (decide (off + n ≥ M32) || decide (off + n > TPM_DIGEST_SIZE), TPM_NOSPACE) ]
 
 def slice (d : Bytes) (off n : Nat) : Bytes := (d.drop off).take n
 
